@@ -385,7 +385,9 @@ class C18(Prop):
         technique="Lean 4: logical_connector / operands / top_level_logic mirrored on token strings over ARBITRARY well-formed clause "
                   "expressions; theorems emit_parses and emit_preserves by mutual induction over all filter trees (any depth, any "
                   "fan-out >= 1), reusing C06's grammar (Derives over the regenerated productions, render_derives); the scanner is "
-                  "proved exact (top_level_logic_exact) by induction over all expressions; the branch templates of logical_connector/"
+                  "proved exact (top_level_logic_exact) by induction over all expressions, and its character-level loop (quotes, triple "
+                  "quotes, escapes, bracket depth) is proved to agree with the token-level scanner on every spelled-out token string "
+                  "(scanner_text_eq_tokens, top_level_logic_text_exact); the branch templates of logical_connector/"
                   "operands are re-read symbolically from the source on every run and bridged; correspondence with the real "
                   "rewriter + parser + evaluator; oracle = Custodian combinators and a structural tree comparison",
         text="proof: for every filter tree with non-empty connectives over arbitrary well-formed CEL clauses the emitted token string is "
@@ -398,14 +400,17 @@ class C18(Prop):
     audit_namespaces = ["Cel.Props.C18", "Cel.Bridge"]
     gen_names = ["Xlate", "Grammar"]
     trusted = ["lark's lexer and the LALR(1) uniqueness meta-theorem (as in C06)",
-               "text-level scanner top_level_logic vs. its token-level model (string literals are single tokens): corresponded",
+               "the character loop of top_level_logic vs. its character-level model scanText: corresponded on every clause text, every "
+               "translation and bracketed variants (scanText = token scanner on spelled-out tokens is PROVED: scanner_text_eq_tokens); "
+               "lark's terminals produce token texts satisfying lexOK (checked on every case)",
                "the library's evaluator on the boolean fragment (&&, ||, !, ?:, ==, in, exists) agrees with evalBool: corresponded"]
     rule = ("filter trees with connectives and/or/not/list, fan-out 1-3, depth <= 4: every tree shape with <= 5 nodes (quick) / <= 6 nodes and 3000 of the 21232 with 7 "
             "nodes (thorough) plus random larger ones; leaves are boolean clause representatives of 24 top-level shapes (atom, !, &&, "
             "||, ?:, offhour-/onhour-like ?:, relation, in, call, index, parenthesised, a && (b || c), a || b && c, a string literal "
-            "containing operators) or real Custodian clauses (value, marked-for-op, offhour, onhour, flow-logs, is-not-logging, ...) "
+            "containing operators) plus a systematic family TOP x ATOMS (7 tops: atom, !, &&, ||, ?:, ==, ?: over &&; 14 atoms whose text hides && || ? "
+            "inside parentheses / brackets / braces / string literals or has none) and deep narrow trees (depth 5-9), or real Custodian clauses (value, marked-for-op, offhour, onhour, flow-logs, is-not-logging, ...) "
             "through the real rewriters, and real `type: value` clauses over 16 adversarial strings (quotes, backslashes, brackets, "
-            "&& || ? : inside the literal) evaluated under resources fixing each clause's value; all 2^k truth assignments to the k clauses (k <= 6; 64 random ones above), each realised by "
+            "&& || ? : inside the literal) evaluated under resources fixing each clause's value; all 2^k truth assignments to the k clauses (k <= 5; 40 random ones above), each realised by "
             "variable bindings chosen per case. non-trivial = tree with a connective nested in a multi-child connective or a "
             "compound clause next to a sibling")
 
@@ -414,6 +419,7 @@ class C18(Prop):
         self._extra: Dict[str, Dict[str, Any]] = {}
         self._parser = None
         self._env = None
+        self._ctree: Dict[str, Any] = {}      # parse trees of clause texts (the same clause text recurs in many cases)
 
     def _parse(self, text):
         from celpy import celparser
@@ -460,10 +466,10 @@ class C18(Prop):
 
     def _assignments(self, c) -> List[List[bool]]:
         k = len(leaves(c["f"]))
-        if k <= 6:
+        if k <= 5:
             return [list(v) for v in itertools.product([False, True], repeat=k)]
         rng = random.Random(c.get("seed", 0))
-        return [[rng.random() < 0.5 for _ in range(k)] for _ in range(64)]
+        return [[rng.random() < 0.5 for _ in range(k)] for _ in range(40)]
 
     def _bindings(self, c, clause_vals: List[bool], j: int) -> Dict[str, bool]:
         b: Dict[str, bool] = {}
@@ -486,10 +492,12 @@ class C18(Prop):
             ob["tree"] = None
         ob["clause_trees"] = []
         for ct in texts:
-            try:
-                ob["clause_trees"].append(self._parse(ct))
-            except celparser.CELParseError:
-                ob["clause_trees"].append(None)
+            if ct not in self._ctree:
+                try:
+                    self._ctree[ct] = self._parse(ct)
+                except celparser.CELParseError:
+                    self._ctree[ct] = None
+            ob["clause_trees"].append(self._ctree[ct])
         if c["kind"] == "bool" and ob["tree"] is not None:
             if self._env is None:
                 self._env = celpy.Environment()
@@ -532,7 +540,8 @@ class C18(Prop):
         t = c["f"]
         if c["kind"] == "bool":
             def clause_pexpr(leaf):
-                return pexpr_of(self._parse(clause_text(leaf)))
+                ct = clause_text(leaf)
+                return pexpr_of(self._ctree.get(ct) or self._parse(ct))
             asg = []
             for j, cv in enumerate(self._assignments(c)):
                 b = self._bindings(c, cv, j)
